@@ -144,7 +144,8 @@ def cmd_run(args):
             for p in props:
                 res = run_check(tree, p, args.tier, args.seed)
                 rows.append((name, p, res["rc"], f"{res['seconds']}s {res['signatures'][:2]} {res['stderr'][-150:]}"))
-                meta.setdefault("results", {})[f"{p}/{args.tier}"] = res
+                key = f"{p}/{args.tier}" + ("" if str(args.seed) == "1" else f"/seed{args.seed}")
+                meta.setdefault("results", {})[key] = res
         json.dump(meta, open(os.path.join(d, "meta.json"), "w"), indent=1)
     bad = 0
     for name, p, rc, note in rows:
